@@ -4,3 +4,4 @@ import GPy.C15.Props
 import GPy.C16.Props
 import GPy.C05.Props
 import GPy.C19.Props
+import GPy.C03.Props
